@@ -9,6 +9,7 @@ import (
 	"reflect"
 	"runtime"
 	"strings"
+	"sync"
 	"unsafe"
 
 	"github.com/philpearl/plenc/plenccodec"
@@ -56,7 +57,8 @@ type Scenario struct {
 	PoolSeam  bool            `json:"pool_seam,omitempty"`
 	PoolBias  int             `json:"pool_bias,omitempty"`
 	Budget    int             `json:"budget,omitempty"`
-	Warm      bool            `json:"warm,omitempty"` // build the codecs single-threaded before the run
+	Warm      bool            `json:"warm,omitempty"`         // build the codecs single-threaded before the run
+	SimReg    bool            `json:"sim_registry,omitempty"` // CodecForType operations go through the simulator-owned registry
 	SchedSeed uint64          `json:"sched_seed"`
 	Note      string          `json:"note,omitempty"`
 }
@@ -301,7 +303,7 @@ func (p *Prepared) prepareOp(op *Op) (*prepOp, bool) {
 				po.twinVal = tv
 			}
 		}
-	case "codec":
+	case "codec", "simreg":
 		desc, errs, pan := soloCodec(cfg, po.ti.T)
 		if pan != "" {
 			return nil, false
@@ -367,9 +369,47 @@ type taskState struct {
 type executor struct {
 	prop  string
 	prep  *Prepared
+	regs  []*simRegistry // one simulator-owned registry per instance
 	insts []world.API
 	tasks []*taskState
 	hooks PropHooks
+}
+
+// simRegistry is a simulator-owned codec registry handed to plenc through its
+// exported seam (*Plenc).CodecForTypeRegistry. Its Load and StoreOrSwap yield
+// to the scheduler themselves, so scenarios that build codecs through it keep
+// full schedule control over the construction window even if a change to plenc
+// dropped the instrumented yield points. Types with registered codecs (time,
+// []byte, null types, JSON-any) are answered by the instance.
+type simRegistry struct {
+	m sync.Map
+	p world.API
+}
+
+type simRegKey struct {
+	t   reflect.Type
+	tag string
+}
+
+var simRegSpecial = map[string]bool{"time.Time": true, "[]uint8": true, "null.Int": true, "null.String": true, "null.Bool": true, "null.Float": true, "null.Time": true, "map[string]interface {}": true, "[]interface {}": true}
+
+func (r *simRegistry) Load(typ reflect.Type, tag string) plenccodec.Codec {
+	engine.Yield("simreg.load")
+	if v, ok := r.m.Load(simRegKey{typ, tag}); ok {
+		return v.(plenccodec.Codec)
+	}
+	if tag == "" && simRegSpecial[typ.String()] {
+		if c, err := r.p.CodecForType(typ); err == nil {
+			return c
+		}
+	}
+	return nil
+}
+
+func (r *simRegistry) StoreOrSwap(typ reflect.Type, tag string, c plenccodec.Codec) plenccodec.Codec {
+	engine.Yield("simreg.storeOrSwap")
+	v, _ := r.m.LoadOrStore(simRegKey{typ, tag}, c)
+	return v.(plenccodec.Codec)
 }
 
 // rules says which observations are violations of which property. Each check
@@ -509,6 +549,14 @@ func (t *taskState) sharedOp(i int, po *prepOp) {
 		}
 	case "codec":
 		t.codecOp(i, po)
+	case "simreg":
+		p := t.inst(po)
+		c, err := p.CodecForTypeRegistry(t.x.regs[po.op.Inst], po.ti.T, "")
+		if e := errText(err); e != po.expErr {
+			t.fail(i, po, "error-mismatch", fmt.Sprintf("CodecForTypeRegistry error %q, alone it is %q", e, po.expErr))
+		} else if err == nil {
+			t.useCodec(i, po, c)
+		}
 	case "nop":
 	default:
 		panic(HarnessError{"op kind not handled: " + po.op.Kind})
@@ -627,7 +675,9 @@ func Execute(prep *Prepared, hooks PropHooks, forced []engine.Dec, useForced boo
 	sc := prep.sc
 	x := &executor{prop: sc.Prop, prep: prep, hooks: hooks}
 	for _, cfg := range sc.Insts {
-		x.insts = append(x.insts, world.NewInstance(cfg))
+		in := world.NewInstance(cfg)
+		x.insts = append(x.insts, in)
+		x.regs = append(x.regs, &simRegistry{p: in})
 	}
 	if propRules[sc.Prop].warm || sc.Warm {
 		// first use happens here, single-threaded, outside the simulation
